@@ -282,6 +282,7 @@ pzgstrf_MemInit(int_t n, int_t annz, superlumt_options_t *superlumt_options,
 
     if ( !zexpanders )
       zexpanders = (ExpHeader *) SUPERLU_MALLOC(NO_MEMTYPE * sizeof(ExpHeader));
+    if ( !zexpanders ) SUPERLU_ABORT("SUPERLU_MALLOC fails for expanders[].");
 
     if ( refact == NO ) {
 
